@@ -1230,6 +1230,7 @@ let do_cis id ins outs =
       | 'P' -> let j = String.index body '/' in
         let ip = bytes_of_token (String.sub body 0 j) and bits = int_of_string (String.sub body (j+1) (String.length body - j - 1)) in
         { pr_id = pid; pr_prefix = Some { c_ip = ip; c_bits = z_of_int bits }; pr_mac = []; pr_dest = [] }
+      | 'I' -> { pr_id = pid; pr_prefix = None; pr_mac = []; pr_dest = List.map bytes_of_token (String.split_on_char ',' body) }
       | _ -> { pr_id = pid; pr_prefix = None; pr_mac = []; pr_dest = [] } in
     let ps = List.fold_left (fun acc x -> pset acc (mk x)) [] el in
     let lst s = if s = "-" then [] else List.map bytes_of_token (String.split_on_char ',' s) in
@@ -1237,9 +1238,9 @@ let do_cis id ins outs =
     (if List.length qs <> List.length outs then problems := ["result count"] else
     List.iteri (fun k (q, o) ->
       match String.split_on_char ';' q, String.split_on_char '/' o with
-      | [ipt; ip16; ipn; mac; ba; bm], [iid; iip; imodel; iname; iprof; ifresh] ->
+      | [ipt; ip16; ipn; mac; ba; bm; loc], [iid; iip; imodel; iname; iprof; ifresh] ->
         let macb = if mac = "-" then None else Some (bytes_of_token mac) in
-        let c = { cl_src = Some (bytes_of_token ipn); cl_dst = Some [bytes_tab.(127); bytes_tab.(0); bytes_tab.(0); bytes_tab.(1)];
+        let c = { cl_src = Some (bytes_of_token ipn); cl_dst = Some (bytes_of_token loc);
                   cl_mac = (match macb with Some m -> m | None -> []) } in
         let prof = pget ps c in
         let ci = lan_client_info prof (bytes_of_token ipt) (bytes_of_token ip16) macb (lst ba) (lst bm) in
@@ -1288,6 +1289,16 @@ let () =
       | "fault" :: id :: rest -> let (i, o) = split_arrow rest in fault_tcp := false; do_fault id i o
       | "faulttcp" :: id :: rest -> let (i, o) = split_arrow rest in fault_tcp := true; do_fault id i o; fault_tcp := false
       | "sid" :: id :: rest -> let (i, o) = split_arrow rest in do_sid id i o
+      | "qmut" :: id :: rest ->
+        (* who asked (peer address, hardware address) and at which local address are the request's own: they were
+           different when the upstream was done with the query than when it was called *)
+        let (_, o) = split_arrow rest in
+        (match o with
+         | [nm; field; before; after] ->
+           verdict "qmut" id "spec:C01,C02,C11,C13" field
+             (Printf.sprintf "while query %s was being resolved its %s changed from %s to %s (another request's data)"
+                (string_of_bytes (bytes_of_token nm)) field before after)
+         | _ -> verdict "qmut" id "diff" "malformed-line" "")
       | "e2e" :: id :: rest -> let (i, o) = split_arrow rest in do_e2e id i o
       | "e2el" :: id :: rest ->
         (* a name the upstream does not know and a discovery source does: answered locally -- exactly one reply, carrying the
